@@ -75,3 +75,8 @@ CLAIMED["C03"] = {
     "note": "max_cycles up to C (not 64), timeout disabled; same rule shape and exclusions as C02. Trusted: rsym + library model, z3, reference model.",
 }
 NA.pop("C02", None); NA.pop("C03", None)
+
+CLAIMED["C01"] = {
+    "text": "Two clauses. (a) Engine level: the REAL RustRuleEngine::execute_with_callback with one rule whose condition is a symbolic tree (shapes L, !L, L&L, L|L, L&(L|L), !(L&L), (L|L)&!L, !(L|(L&L)); every leaf symbolic over field in {x, y, a missing field, nested obj.n}, the six comparison operators, right-hand side an integer literal / a string naming another fact / null / a string naming nothing) over symbolic facts (present/absent, candidate integers): the callback runs and the assignment out := 7 is stored IFF the tree is true under the documented meaning (missing field reads as null, field-reference right-hand sides are read from the facts, ordering false on non-numeric operands). (b) Operator level: Operator::evaluate with the operator symbolic over all 12 variants and both operands symbolic over candidate sets of Integer/Number/String/Boolean/Null/Array, plus Equal/NotEqual over ANY pair of i64, against the documented meaning.",
+    "note": "NOT covered: arithmetic expressions in conditions/assignments (the evaluator computes in f64; z3 float theory answered unknown at 600 s), contains/startsWith/endsWith/in at engine level (operator level only), Exists/Forall/Accumulate, nesting deeper than the listed shapes. Finite candidate domains for fact values. Trusted: rsym + library model, z3, reference model.",
+}
